@@ -333,6 +333,16 @@ R('randomtable', 0,
    lambda e, w: e.randomtable(1, 0, seed=7)], 'util.random')
 
 
+def _randint09():
+    import random
+    return random.randint(0, 9)
+
+
+def _rnd():
+    import random
+    return random.random()
+
+
 def _dummy(e, w, n, seed):
     return e.dummytable(n, seed=seed)
 
@@ -1186,7 +1196,15 @@ V('fromdicts-list', lambda e, w: _from_dicts_list(e, w, sample=1))
 V('fromcolumns', lambda e, w: e.fromcolumns([[1, 2, 3], ['a', 'b']],
                                             header=['n', 's'], missing=0))
 V('valuecounts', lambda e, w: e.valuecounts(w.s[0], 'a', missing='M'))
-V('randomtable', lambda e, w: e.randomtable(4, 3, seed=0, wait=0))
+V('randomtable', lambda e, w: e.randomtable(4, 3, seed=0, wait=0),
+  lambda e, w: e.randomtable(3, 5),
+  lambda e, w: e.randomtable(2, 4, wait=0.5),
+  lambda e, w: e.randomtable(2, 6, wait=2, seed='s'))
+V('dummytable', lambda e, w: e.dummytable(5),
+  lambda e, w: e.dummytable(4, wait=1, seed=3),
+  lambda e, w: e.dummytable(6, fields=[('x', _randint09), ('y', _rnd)],
+                            seed=11),
+  lambda e, w: e.dummytable(3, fields=[('only', _rnd)], wait=0.25))
 V('values', lambda e, w: e.values(w.s[0], 0))
 V('data', lambda e, w: e.data(w.s[0], 0, 6))
 V('dicts', lambda e, w: e.dicts(w.s[0], 0, 3))
